@@ -56,3 +56,5 @@ user_alphabet!(Abc9, Sym9, lightmotif::num::U9, "BCDEFGHIX", [B, C, D, E, F, G, 
 user_alphabet!(Abc12, Sym12, lightmotif::num::U12, "ABCDEFGHIJKX", [A, B, C, D, E, F, G, H, I, J, K, X], X);
 // the sixteen IUPAC nucleotide codes (N last, as the wildcard)
 user_alphabet!(Iupac, SymIupac, lightmotif::num::U16, "ACGTRYSWKMBDHV-N", [A, C, G, T, R, Y, S, W, K, M, B, D, H, V, Gap, N], N);
+// forty codon-like states and a wildcard: more non-wildcard symbols than a 32-lane register or a 32-entry table holds
+user_alphabet!(Abc41, Sym41, lightmotif::num::U41, "ABCDEFGHIJKLMNOPQRSTUVWXYZabcdefghijklmn*", [S00, S01, S02, S03, S04, S05, S06, S07, S08, S09, S10, S11, S12, S13, S14, S15, S16, S17, S18, S19, S20, S21, S22, S23, S24, S25, S26, S27, S28, S29, S30, S31, S32, S33, S34, S35, S36, S37, S38, S39, Any], Any);
